@@ -29,6 +29,20 @@ pub(crate) const K_ATTEMPT: usize = 16;
 pub(crate) const K_FALLBACK: usize = 16;
 pub(crate) const K_LOAD: usize = 32;
 
+/// Any occupancy of the thread's fast slots by older guards (all on pool object 1, which they
+/// pin) and any rotation offset.
+fn havoc_occupancy(l: &LocalNode) {
+    let node = list_h::local_node(l).unwrap();
+    let mut i = 0;
+    while i < 8 {
+        if nd::any_bool() {
+            list_h::poke_slot(node, i, model::addr(1));
+        }
+        i += 1;
+    }
+    list_h::set_offset(l, nd::below(9) as usize);
+}
+
 fn l2_ledger() {
     let mut p = 0;
     while p < POOL {
@@ -66,8 +80,8 @@ fn rg_attempt(budget: u8, foreign_kinds: bool) {
     let helper = list_h::node_get();
     LocalNode::with(|l| {
         let node = list_h::local_node(l).unwrap();
-        super::havoc_fast(l);
-        env::install(&storage as *const _ as usize, node, helper, budget);
+        havoc_occupancy(l);
+        env::install(&storage, node, helper, budget);
         env().allow_foreign_kind = foreign_kinds;
         let sa = &storage as *const _ as usize;
         let w_ld = model::watch(model::K_LOAD, sa);
@@ -91,11 +105,11 @@ fn rg_attempt(budget: u8, foreign_kinds: bool) {
                         let s = slot_index(node, d);
                         vassert!(s.is_some() && s.unwrap() < 8, "debt_is_one_of_my_fast_slots");
                         let s = s.unwrap();
-                        vassert!(e.mine_written[s], "debt_slot_was_published_by_this_call");
+                        vassert!(e.my_slot == s, "debt_slot_was_published_by_this_call");
                         if list_h::peek_slot(node, s) == a {
                             // L-R1: published before a later read of the storage returned the same
                             // pointer => every remover of it must pay this slot before releasing it
-                            vassert!(e.covered[s], "borrowed_value_is_protected_by_a_covered_debt");
+                            vassert!(e.covered, "borrowed_value_is_protected_by_a_covered_debt");
                             vassert!(model::mine(id) == 0, "borrowing_guard_owns_no_count");
                         } else {
                             vassert!(model::mine(id) == 1, "guard_with_paid_debt_owns_exactly_the_paid_count");
@@ -115,12 +129,8 @@ fn rg_attempt(budget: u8, foreign_kinds: bool) {
             }
             None => {
                 no_stray_counts(POOL);
-                let mut s = 0;
-                while s < 8 {
-                    if e.mine_written[s] {
-                        vassert!(list_h::peek_slot(node, s) == NONE, "failed_attempt_leaves_no_debt_behind");
-                    }
-                    s += 1;
+                if e.my_slot < 9 {
+                    vassert!(list_h::peek_slot(node, e.my_slot) == NONE, "failed_attempt_leaves_no_debt_behind");
                 }
             }
         }
@@ -133,14 +143,14 @@ fn rg_attempt(budget: u8, foreign_kinds: bool) {
 #[cfg_attr(kani, kani::proof)]
 #[cfg_attr(kani, kani::unwind(12))]
 pub(crate) fn rg_attempt_lin() {
-    rg_attempt(1, false);
+    rg_attempt(2, false);
     vcover!("rg_attempt_lin_end");
 }
 // @harness name=rg_attempt_lin2 props=C03,C01,C12 tier=thorough flavour=nostd timeout=7200 fn=HybridProtection::attempt
 #[cfg_attr(kani, kani::proof)]
 #[cfg_attr(kani, kani::unwind(12))]
 pub(crate) fn rg_attempt_lin2() {
-    rg_attempt(2, false);
+    rg_attempt(3, false);
     vcover!("rg_attempt_lin2_end");
 }
 // Same, with re-allocated addresses possibly holding another pointee type / pointer kind (F3).
@@ -148,7 +158,7 @@ pub(crate) fn rg_attempt_lin2() {
 #[cfg_attr(kani, kani::proof)]
 #[cfg_attr(kani, kani::unwind(12))]
 pub(crate) fn rg_attempt_types() {
-    rg_attempt(1, true);
+    rg_attempt(2, true);
     vcover!("rg_attempt_types_end");
 }
 
@@ -163,9 +173,9 @@ fn rg_fallback(budget: u8, foreign_kinds: bool) {
     nd::assume(g.wrapping_add(4) != 0);
     LocalNode::with(|l| {
         let node = list_h::local_node(l).unwrap();
-        super::havoc_fast(l);
+        havoc_occupancy(l);
         list_h::set_generation(l, g);
-        env::install(&storage as *const _ as usize, node, helper, budget);
+        env::install(&storage, node, helper, budget);
         env().allow_foreign_kind = foreign_kinds;
         let sa = &storage as *const _ as usize;
         let w_aa = model::watch(model::K_STORE, list_h::active_addr_addr(node));
@@ -215,21 +225,21 @@ fn rg_fallback(budget: u8, foreign_kinds: bool) {
 #[cfg_attr(kani, kani::proof)]
 #[cfg_attr(kani, kani::unwind(12))]
 pub(crate) fn rg_fallback_lin() {
-    rg_fallback(1, false);
+    rg_fallback(2, false);
     vcover!("rg_fallback_lin_end");
 }
 // @harness name=rg_fallback_lin2 props=C03,C01,C12 tier=thorough flavour=nostd timeout=7200 fn=HybridProtection::fallback
 #[cfg_attr(kani, kani::proof)]
 #[cfg_attr(kani, kani::unwind(12))]
 pub(crate) fn rg_fallback_lin2() {
-    rg_fallback(2, false);
+    rg_fallback(3, false);
     vcover!("rg_fallback_lin2_end");
 }
 // @harness name=rg_fallback_types props=C12 tier=quick flavour=nostd timeout=2400 fn=HybridProtection::fallback
 #[cfg_attr(kani, kani::proof)]
 #[cfg_attr(kani, kani::unwind(12))]
 pub(crate) fn rg_fallback_types() {
-    rg_fallback(1, true);
+    rg_fallback(2, true);
     vcover!("rg_fallback_types_end");
 }
 
@@ -247,11 +257,10 @@ fn rg_guard_release(into_inner: bool) {
     list_h::poke_slot(node, s, model::addr(obj));
     let slot: &'static Debt = list_h::any_slot(node, s);
     let prot: HybridProtection<TP> = HybridProtection { debt: Some(slot), ptr: ManuallyDrop::new(TP(model::addr(obj))) };
-    env::install(&storage as *const _ as usize, node, helper, 2);
+    env::install(&storage, node, helper, 1);
     let e = env();
     // the guard under proof is the one that published this slot
-    e.mine_written[s] = true;
-    e.covered[s] = true;
+    env::adopt_slot(s, obj);
     if into_inner {
         let inner: TP = prot.into_inner();
         env::uninstall();
@@ -295,12 +304,12 @@ fn rg_load<C: Config + Default>() {
     let g = helping_h::any_generation();
     nd::assume(g.wrapping_add(4) != 0);
     let node = LocalNode::with(|l| {
-        super::havoc_fast(l);
+        havoc_occupancy(l);
         list_h::set_generation(l, g);
         list_h::local_node(l).unwrap()
     });
     let st = strategy::<C>();
-    env::install(&storage as *const _ as usize, node, helper, 1);
+    env::install(&storage, node, helper, 1);
     let r: HybridProtection<TP> = unsafe { <HybridStrategy<C> as InnerStrategy<TP>>::load(&st, &storage) };
     env::uninstall();
     let e = env();
